@@ -102,6 +102,13 @@ def scenario(draw):
         trigger["flavour"] = flv
     else:
         drivers.append([{"at_ms": at, "op": trig if trig != "shutdown" else ("shutdown" if runner == "service" else "stop")}])
+    if (trig == "failure" and trigger["end"][0] in ("return", "raise") and trigger["end"][1] not in BASE_NAMES) or trig == "shutdown":
+        # asyncio victims that absorb their first cancellation(s) around an inner await and only then wind down (a retry loop,
+        # a suppressed CancelledError): the graceful close has to cancel them again until they are gone. Same domain as in
+        # C01: only where cobald's own close runs to its end (no second, loop-aborting event; DESIGN.md section 11)
+        for p in payloads:
+            if p["role"] == "victim" and p["flavour"] == "asyncio" and p.get("state") in ("sleeping", "beating") and draw(st.integers(0, 3)) == 0:
+                p["stubborn"] = draw(st.sampled_from([1, 1, 2, 4]))
     drivers[0].sort(key=lambda s: s["at_ms"])
     sc = {"runner": runner, "accept_delay": draw(accept_delay), "switchinterval": draw(switchinterval), "bound_s": BOUND, "linger_ms": 300,
           "payloads": payloads, "drivers": drivers, "trigger": trigger}
@@ -169,7 +176,7 @@ def run_case(sc) -> Result:
             "blocked-threads:%d" % sum(1 for p in sc["payloads"] if p["role"] == "blocked"), "runner:" + sc["runner"],
             "schedule-perturbed:" + str(bool(sc.get("trace_delay"))))
     for p in victims:
-        res.cls("state:" + p["state"])
+        res.cls("state:" + p["state"] + (":absorbing" if p.get("stubborn") else ""))
     other = any(p["flavour"] != trig.get("flavour") for p in victims)
     res.nontrivial = bool(victims) and (other or shield >= 50 or any(p["state"] == "late" for p in victims))
     if res.violations:
